@@ -30,6 +30,8 @@ struct IN_t {
   unsigned char nbody, body[MAXBODY], xempty, yempty;
   // (3)
   unsigned char mlen[3], mbody[3][2], start;
+  // (4)
+  unsigned char hn[3], he[3][2], objlike;
 } IN;
 struct IN_t nondet_IN(void);
 
@@ -90,13 +92,26 @@ static Token *mk(TokenKind k, char *sp, int len, bool space) {
 }
 static Token *take_list(void) { Token *f = first_tok; first_tok = last_tok = NULL; return f; }
 
-// preprocess2 as subst() uses it on an argument: the arguments here contain no macro, so full
-// macro expansion of an argument is the identity (asserted); cut to keep the #include/#if
-// machinery out of the query.
+// preprocess2 as subst() uses it on an argument (C11 6.10.3.1: "a parameter in the replacement list, unless preceded
+// by a # or ## preprocessing token or followed by a ## preprocessing token, is replaced by the corresponding argument
+// after all macros contained therein have been expanded"). The #include/#if machinery is cut out of the query; so that
+// the reference can tell WHERE full macro expansion was applied, the stub behaves as if `p` and `q` were object-like
+// macros defined as `P` and `Q`: it returns a fresh list in which p is spelled P and q is spelled Q.
 Token *stub_preprocess2(Token *tok) {
-  for (Token *t = tok; t && t->kind != TK_EOF; t = t->next)
+  Token head = {0}, *cur = &head;
+  for (Token *t = tok; t && t->kind != TK_EOF; t = t->next) {
     VASSERT(t->val == verif_spell("p") || t->val == verif_spell("q"), "arguments are single plain identifiers");
-  return tok;
+    Token *c = calloc(1, sizeof(Token));
+    *c = *t;
+    c->loc = t->val == verif_spell("p") ? "P" : "Q";
+    c->val = verif_spell(c->loc);
+    c->next = NULL;
+    cur = cur->next = c;
+  }
+  Token *e = calloc(1, sizeof(Token));
+  e->kind = TK_EOF; e->file = &verif_file;
+  cur->next = e;
+  return head.next;
 }
 
 // ================================================================ (2) subst vs C11 6.10.3.1-3
@@ -134,7 +149,7 @@ static int64_t cat(int64_t a, int64_t b) {
 }
 #define PLACEMARKER (-7)
 static bool is_str_val(int64_t v) { return v == verif_spell("\"\"") || v == verif_spell("\"p\"") || v == verif_spell("\"q\""); }
-static bool is_ident_val(int64_t v) { return v == verif_spell("a") || v == verif_spell("p") || v == verif_spell("q"); }
+static bool is_ident_val(int64_t v) { return v == verif_spell("a") || v == verif_spell("p") || v == verif_spell("q") || v == verif_spell("P") || v == verif_spell("Q"); }
 
 static int64_t ref_out[MAXBODY + 1];
 static int ref_n;
@@ -165,7 +180,9 @@ static int reference(void) {
       bool next_paste = i + 1 < n && IN.body[i + 1] == B_PASTE;
       // operand of ## : placemarker when empty (6.10.3.3p2); otherwise an empty argument vanishes
       if (empty && !pending_paste && !next_paste) continue;
-      v = empty ? PLACEMARKER : b == B_X ? verif_spell("p") : verif_spell("q");
+      // an operand of ## is NOT macro-expanded (raw p / q); any other occurrence is fully expanded first (P / Q)
+      bool raw = pending_paste || next_paste;
+      v = empty ? PLACEMARKER : b == B_X ? verif_spell(raw ? "p" : "P") : verif_spell(raw ? "q" : "Q");
     } else
       v = b == B_A ? verif_spell("a") : verif_spell(",");
     opnd[m] = v; glue[m] = pending_paste; m++;
@@ -251,6 +268,16 @@ static void run_shape(void) {
   mk(TK_EOF, "", 0, false);
   ay.tok = take_list();
   ax.next = &ay;
+#ifdef NATIVE
+  {  // natively the REAL preprocess2 runs on the arguments: give it what stub_preprocess2 assumes, p -> P and q -> Q
+    static Macro mp, mq;
+    mk(TK_IDENT, "P", 1, false); mk(TK_EOF, "", 0, false);
+    mp.name = "p"; mp.is_objlike = true; mp.body = take_list();
+    mk(TK_IDENT, "Q", 1, false); mk(TK_EOF, "", 0, false);
+    mq.name = "q"; mq.is_objlike = true; mq.body = take_list();
+    hashmap_put(&macros, "p", &mp); hashmap_put(&macros, "q", &mq);
+  }
+#endif
   Token *out = NULL;
   expect_no_diag = r == 1;
   // ill-formed replacement list (# without parameter, ## at an end): a constraint violation, the
@@ -332,5 +359,62 @@ void h_terminate(void) {
     if (is_macro) VASSERT(stub_hideset_contains(t->hideset, t->loc, t->len), "a macro name left in the output is in its own hide set");
   }
   VASSERT(n <= 8, "at most 2^3 tokens result");
+  VCOVER();
+}
+
+
+// ================================================================ (4) hide set given to an expansion
+// C11 6.10.3.4p2 as implemented by Prosser's algorithm (the comment in expand_macro): the tokens of the expansion of
+// an object-like macro M get HS(M token) U {M}; those of a function-like macro get (HS(M token) ^ HS(closing paren))
+// U {M}; a macro name that is in its own token's hide set is not expanded; the tokens after the invocation are
+// untouched. The real expand_macro (with the real read_macro_args, subst, add_hideset, hideset_*) runs on
+//        FM ( ) z        resp.        OM z
+// where the hide sets of the macro token, of the `)` and of `z` are symbolic lists (<= 2 names over {A, B, FM/OM}).
+static char *pool4[3] = {"A", "B", "FM"};
+static Hideset *mkhs4(int n, unsigned char *e) {
+  Hideset *h = NULL;
+  for (int i = 1; i >= 0; i--)
+    if (i < n) { Hideset *x = calloc(1, sizeof(Hideset)); x->name = pool4[e[i]]; x->next = h; h = x; }
+  return h;
+}
+static bool in4(int k, int q) {
+  bool r = false;
+  for (int i = 0; i < 2; i++) if (i < IN.hn[k] && IN.he[k][i] == q) r = true;
+  return r;
+}
+void h_expand_hideset(void) {
+  HAVOC_IN();
+  __CPROVER_assume(IN.objlike <= 1);
+  for (int k = 0; k < 3; k++) {
+    __CPROVER_assume(IN.hn[k] <= 2);
+    for (int i = 0; i < 2; i++) __CPROVER_assume(IN.he[k][i] <= 2);
+  }
+  static Macro m;
+  mk(TK_IDENT, "b", 1, true); mk(TK_EOF, "", 0, false);
+  m.name = "FM"; m.is_objlike = IN.objlike; m.body = take_list();
+  hashmap_put(&macros, "FM", &m);
+  Token *mt = mk(TK_IDENT, "FM", 2, false), *rp = NULL;
+  if (!IN.objlike) { mk(TK_PUNCT, "(", 1, false); rp = mk(TK_PUNCT, ")", 1, false); }
+  Token *z = mk(TK_IDENT, "z", 1, true);
+  mk(TK_EOF, "", 0, false);
+  Token *in = take_list();
+  mt->hideset = mkhs4(IN.hn[0], IN.he[0]);
+  if (rp) rp->hideset = mkhs4(IN.hn[1], IN.he[1]);
+  z->hideset = mkhs4(IN.hn[2], IN.he[2]);
+  Hideset *zhs = z->hideset;
+  expect_no_diag = 1;
+  Token *rest = NULL;
+  bool expanded = false;
+  TRY(expanded = expand_macro(&rest, in));
+  if (verif_diag) return;
+  VASSERT(expanded == !in4(0, 2), "a macro name is expanded unless it is in the hide set of its own token");
+  if (!expanded) { VCOVER(); return; }
+  VASSERT(rest && rest->val == verif_spell("b") && rest->next == z, "the expansion is the body followed by the token after the invocation");
+  for (int q = 0; q < 3; q++) {
+    bool want = q == 2 || (in4(0, q) && (IN.objlike || in4(1, q)));
+    VASSERT(hideset_contains(rest->hideset, pool4[q], q == 2 ? 2 : 1) == want,
+            "hide set of the expansion: HS(macro token) [intersected with HS(closing paren) for a function-like macro] plus the macro's name");
+  }
+  VASSERT(z->hideset == zhs, "the token after the invocation keeps its hide set");
   VCOVER();
 }
